@@ -4,6 +4,7 @@ run the quick check of the property it breaks, undo it. A seed whose check exits
 usage: tools/recheck_seeds.py [name-prefix ...]"""
 import json, os, subprocess, sys
 root = "/verif/seeded"
+REPO = os.environ.get("SEED_REPO", "/repo")
 sel = sys.argv[1:]
 missed = []
 for name in sorted(os.listdir(root)):
@@ -12,11 +13,11 @@ for name in sorted(os.listdir(root)):
     meta = json.load(open(os.path.join(root, name, "meta.json")))
     prop = meta["breaks_property"]
     patch = os.path.join(root, name, "patch.diff")
-    if subprocess.run(["git", "-C", "/repo", "apply", "--check", patch], capture_output=True).returncode != 0:
+    if subprocess.run(["git", "-C", REPO, "apply", "--check", patch], capture_output=True).returncode != 0:
         print("%-45s PATCH DOES NOT APPLY to current /repo HEAD" % name, flush=True)
         missed.append(name)
         continue
-    p = subprocess.run(["/verif/tools/try_seed.py", patch, prop], capture_output=True, text=True)
+    p = subprocess.run([os.path.join(os.environ.get("SEED_VERIF", "/verif"), "tools/try_seed.py"), patch, prop], capture_output=True, text=True)
     rc = [l for l in p.stdout.splitlines() if l.startswith("== ")]
     sigs = [l.strip()[5:] for l in p.stdout.splitlines() if l.strip().startswith("sig:")]
     ok = any("rc=1" in l for l in rc)
